@@ -154,6 +154,13 @@ func (b *BindResp) IDecode(data []byte) error {
 	defer buf.Release()
 
 	b.Header = smpp.ReadHeader(buf)
+	if b.Header.Status != smpp.ESME_ROK && buf.Error() == nil && buf.Remaining() == 0 &&
+		(b.Header.ID == smpp.BIND_TRANSMITTER_RESP || b.Header.ID == smpp.BIND_RECEIVER_RESP) {
+		// SMPP 3.4 §4.1.2/§4.1.4: the body of bind_transmitter_resp and bind_receiver_resp is not returned if
+		// command_status is non-zero (the document says nothing of the kind for bind_transceiver_resp)
+		b.SystemID, b.TLVs = "", nil
+		return nil
+	}
 
 	b.SystemID = buf.ReadCString()
 
